@@ -89,7 +89,9 @@ pub(crate) trait MessageType: Sized {
             let headers = self.headers_mut();
 
             for idx in raw_headers.iter() {
-                let name = HeaderName::from_bytes(&slice[idx.name.0..idx.name.1]).unwrap();
+                // httparse accepts any token; `HeaderName` additionally caps the length
+                let name = HeaderName::from_bytes(&slice[idx.name.0..idx.name.1])
+                    .map_err(|_| ParseError::Header)?;
 
                 // SAFETY: httparse already checks header value is only visible ASCII bytes
                 // from_maybe_shared_unchecked contains debug assertions so they are omitted here
@@ -629,6 +631,14 @@ mod tests {
                 _ => unreachable!("Error expected"),
             }
         }};
+    }
+
+    #[test]
+    fn header_name_longer_than_http_crate_limit() {
+        let mut buf = BytesMut::from("GET /test HTTP/1.1\r\n");
+        buf.extend_from_slice(&vec![b'a'; 70_000]);
+        buf.extend_from_slice(b": x\r\n\r\n");
+        expect_parse_err!(&mut buf);
     }
 
     #[test]
